@@ -3,11 +3,25 @@ package main
 import (
 	"context"
 	"fmt"
+	"sort"
+	"strings"
 
 	"github.com/cockroachdb/errors"
+	"github.com/cockroachdb/errors/assert"
 	"github.com/cockroachdb/errors/barriers"
+	"github.com/cockroachdb/errors/contexttags"
+	"github.com/cockroachdb/errors/domains"
+	"github.com/cockroachdb/errors/errutil"
 	"github.com/cockroachdb/errors/extgrpc"
 	"github.com/cockroachdb/errors/exthttp"
+	grpcstatus2 "github.com/cockroachdb/errors/grpc/status"
+	"github.com/cockroachdb/errors/hintdetail"
+	"github.com/cockroachdb/errors/issuelink"
+	"github.com/cockroachdb/errors/markers"
+	"github.com/cockroachdb/errors/safedetails"
+	"github.com/cockroachdb/errors/secondary"
+	"github.com/cockroachdb/errors/telemetrykeys"
+	"github.com/cockroachdb/errors/withstack"
 	"github.com/cockroachdb/logtags"
 	"github.com/cockroachdb/redact"
 	"google.golang.org/grpc/codes"
@@ -19,6 +33,42 @@ var nilTable = []struct {
 	Name string
 	F    func() error
 }{
+	// the sub-package functions behind the root package's aliases, and the remaining exported
+	// functions of the extracted constructor table (tools/extract_ctors.py)
+	{"errors.EnsureNotInDomain", func() error { return errors.EnsureNotInDomain(nil, nil, errors.Domain("d")) }},
+	{"errors.Opaque", func() error { return errors.Opaque(nil) }},
+	{"assert.WithAssertionFailure", func() error { return assert.WithAssertionFailure(nil) }},
+	{"contexttags.WithContextTags", func() error {
+		return contexttags.WithContextTags(nil, logtags.AddTag(context.Background(), "k", "v"))
+	}},
+	{"domains.EnsureNotInDomain", func() error { return domains.EnsureNotInDomain(nil, nil, domains.Domain("d")) }},
+	{"domains.Handled", func() error { return domains.Handled(nil) }},
+	{"domains.HandledInDomain", func() error { return domains.HandledInDomain(nil, domains.Domain("d")) }},
+	{"domains.HandledInDomainWithMessage", func() error { return domains.HandledInDomainWithMessage(nil, domains.Domain("d"), "m") }},
+	{"domains.WithDomain", func() error { return domains.WithDomain(nil, domains.Domain("d")) }},
+	{"errutil.HandleAsAssertionFailure", func() error { return errutil.HandleAsAssertionFailure(nil) }},
+	{"errutil.HandleAsAssertionFailureDepth", func() error { return errutil.HandleAsAssertionFailureDepth(1, nil) }},
+	{"errutil.NewAssertionErrorWithWrappedErrDepthf", func() error { return errutil.NewAssertionErrorWithWrappedErrDepthf(1, nil, "m") }},
+	{"errutil.NewAssertionErrorWithWrappedErrf", func() error { return errutil.NewAssertionErrorWithWrappedErrf(nil, "m") }},
+	{"errutil.WithMessage", func() error { return errutil.WithMessage(nil, "m") }},
+	{"errutil.WithMessagef", func() error { return errutil.WithMessagef(nil, "m %d", 1) }},
+	{"errutil.Wrap", func() error { return errutil.Wrap(nil, "m") }},
+	{"errutil.WrapWithDepth", func() error { return errutil.WrapWithDepth(1, nil, "m") }},
+	{"errutil.WrapWithDepthf", func() error { return errutil.WrapWithDepthf(1, nil, "m %d", 1) }},
+	{"errutil.Wrapf", func() error { return errutil.Wrapf(nil, "m %d", 1) }},
+	{"grpc/status.WrapErr", func() error { return grpcstatus2.WrapErr(codes.NotFound, "m", nil) }},
+	{"grpc/status.WrapErrf", func() error { return grpcstatus2.WrapErrf(codes.NotFound, nil, "m %d", 1) }},
+	{"hintdetail.WithDetail", func() error { return hintdetail.WithDetail(nil, "d") }},
+	{"hintdetail.WithDetailf", func() error { return hintdetail.WithDetailf(nil, "d %d", 1) }},
+	{"hintdetail.WithHint", func() error { return hintdetail.WithHint(nil, "h") }},
+	{"hintdetail.WithHintf", func() error { return hintdetail.WithHintf(nil, "h %d", 1) }},
+	{"issuelink.WithIssueLink", func() error { return issuelink.WithIssueLink(nil, issuelink.IssueLink{IssueURL: "u"}) }},
+	{"markers.Mark", func() error { return markers.Mark(nil, errors.New("r")) }},
+	{"safedetails.WithSafeDetails", func() error { return safedetails.WithSafeDetails(nil, "s %d", 1) }},
+	{"secondary.WithSecondaryError", func() error { return secondary.WithSecondaryError(nil, errors.New("s")) }},
+	{"telemetrykeys.WithTelemetry", func() error { return telemetrykeys.WithTelemetry(nil, "k") }},
+	{"withstack.WithStack", func() error { return withstack.WithStack(nil) }},
+	{"withstack.WithStackDepth", func() error { return withstack.WithStackDepth(nil, 1) }},
 	{"errors.Wrap", func() error { return errors.Wrap(nil, "m") }},
 	{"errors.Wrapf", func() error { return errors.Wrapf(nil, "m %d", 1) }},
 	{"errors.WrapWithDepth", func() error { return errors.WrapWithDepth(1, nil, "m") }},
@@ -59,8 +109,34 @@ var nilTable = []struct {
 	{"extgrpc.WrapWithGrpcCode", func() error { return extgrpc.WrapWithGrpcCode(nil, codes.NotFound) }},
 }
 
+// nilTableKeys: the table's entries under the extractor's naming scheme (".Wrap" for the root
+// package, "errutil.Wrap" for sub-packages), variants such as "errors.Join(nil,nil)" dropped.
+func nilTableKeys() []string {
+	seen := map[string]bool{}
+	var out []string
+	for _, row := range nilTable {
+		k := row.Name
+		if i := strings.IndexByte(k, '('); i >= 0 {
+			continue
+		}
+		if strings.HasPrefix(k, "errors.") {
+			k = k[len("errors"):]
+		}
+		if !seen[k] {
+			seen[k] = true
+			out = append(out, k)
+		}
+	}
+	sort.Strings(out)
+	return out
+}
+
 func oracleC10Nil(res *Result) {
 	c := &Case{ID: "nil-table", Cmd: L(Sym("nil-table"))}
+	if res.Extra == nil {
+		res.Extra = map[string]interface{}{}
+	}
+	res.Extra["c10_table_names"] = nilTableKeys()
 	for _, row := range nilTable {
 		var got error
 		ok, pv := catch(func() { got = row.F() })
